@@ -23,6 +23,40 @@ type VerifChunk struct {
 	Segments  [][][]byte // [column][segment]
 	TimeRange [][2]int64 // [segment] as read back from the marshalled chunk meta
 	MetaOK    bool       // chunk meta marshal -> unmarshal gave the same segments (offset, size) and ranges
+	Meta      VerifChunkMeta
+}
+
+// VerifChunkMeta is the chunk meta field by field together with its marshalled bytes.
+type VerifChunkMeta struct {
+	Bytes     []byte
+	Sid       uint64
+	Offset    int64
+	Size      uint32
+	Ranges    [][2]int64
+	ColNames  []string
+	ColTypes  []byte
+	ColPreAgg [][]byte
+	ColSegs   [][][2]int64 // [column][segment] offset, size
+}
+
+func verifChunkMeta(cm *ChunkMeta) VerifChunkMeta {
+	m := VerifChunkMeta{Bytes: cm.marshal(nil), Sid: cm.sid, Offset: cm.offset, Size: cm.size}
+	for i := range cm.timeRange {
+		m.Ranges = append(m.Ranges, [2]int64{cm.timeRange[i].minTime(), cm.timeRange[i].maxTime()})
+	}
+	for i := range cm.colMeta {
+		c := &cm.colMeta[i]
+		m.ColNames = append(m.ColNames, c.name)
+		m.ColTypes = append(m.ColTypes, c.ty)
+		m.ColPreAgg = append(m.ColPreAgg, append([]byte{}, c.preAgg...))
+		var segs [][2]int64
+		for j := range c.entries {
+			o, s := c.entries[j].OffsetSize()
+			segs = append(segs, [2]int64{o, int64(s)})
+		}
+		m.ColSegs = append(m.ColSegs, segs)
+	}
+	return m
 }
 
 func VerifEncodeChunk(rec *record.Record, maxRowsPerSegment, maxSegments int) (*VerifChunk, error) {
@@ -34,7 +68,7 @@ func VerifEncodeChunk(rec *record.Record, maxRowsPerSegment, maxSegments int) (*
 		return nil, err
 	}
 	cm := b.chunkMeta
-	res := &VerifChunk{Chunk: chunk, MetaOK: true}
+	res := &VerifChunk{Chunk: chunk, MetaOK: true, Meta: verifChunkMeta(cm)}
 	// chunk meta round trip
 	buf := cm.marshal(nil)
 	got := &ChunkMeta{}
@@ -131,6 +165,8 @@ type VerifFile struct {
 	MinID, MaxID     uint64
 	MinTime, MaxTime int64
 	Series           []VerifSeries
+	TrailerBytes     []byte   // Trailer.Marshal of the trailer read from the file
+	TrailerFixed     []uint64 // its 14 fixed fields in marshalling order (64-bit patterns)
 }
 
 func verifBits(v interface{}) uint64 {
@@ -158,6 +194,9 @@ func VerifReadTSSP(path string, schema record.Schemas) (*VerifFile, error) {
 	defer func() { _ = f.Close() }()
 	tr := f.FileStat()
 	out := &VerifFile{IDCount: tr.idCount, MinID: tr.minId, MaxID: tr.maxId, MinTime: tr.minTime, MaxTime: tr.maxTime}
+	out.TrailerBytes = tr.Marshal(nil)
+	out.TrailerFixed = []uint64{uint64(tr.dataOffset), uint64(tr.dataSize), uint64(tr.indexSize), uint64(tr.metaIndexSize), uint64(tr.bloomSize),
+		uint64(tr.idTimeSize), uint64(tr.idCount), tr.minId, tr.maxId, uint64(tr.minTime), uint64(tr.maxTime), uint64(tr.metaIndexItemNum), tr.bloomM, tr.bloomK}
 	n := int(f.MetaIndexItemNum())
 	for i := 0; i < n; i++ {
 		midx, err := f.MetaIndexAt(i)
